@@ -147,6 +147,13 @@ impl Setsum {
             let mut buf = [0u8; 4];
             buf.clone_from_slice(&digest[idx..idx + 4]);
             *item = u32::from_le_bytes(buf);
+            // Columns are elements of the field of integers modulo the column's prime.  A digest
+            // from outside may hold a value in p..2^32, which add_state and invert_state do not
+            // expect (they would overflow or produce a non-congruent result).  Reduce, exactly
+            // as hash_to_state does.
+            if *item >= SETSUM_PRIMES[col] {
+                *item -= SETSUM_PRIMES[col];
+            }
         }
         Self { state }
     }
